@@ -3,6 +3,8 @@
    reference table; `step` is the transcription of CachedConn / cache.node / cleaner; a cluster is a list
    of nodes with per-key dispatch. Draws of the expiry jitter are explicit inputs (the factor f). *)
 From God Require Import Base.Prelude C06.Spec C06.Model C06.Proofs C06.ProofsTtl C06.ProofsShield C06.ProofsRetry C06.ProofsCluster.
+From God Require Import C06.ModelConc C06.ProofsConc.
+From God Require C18.Conc C18.Model C18.ProofsSF.
 From Coq Require Import QArith.
 Local Open Scope Z_scope.
 
@@ -122,28 +124,87 @@ Proof.
 Qed.
 Print Assumptions c06_cluster_like_node.
 
-(* Stampede clause. It rests on the single-flight contract of syncx.SingleFlight (property C18): the
-   executions of the function handed to barrier.DoEx for one key never overlap. node.doTake queries the
-   database only inside that function, and one execution queries at most once; hence the database
-   queries for one key never overlap. *)
-Section OneQueryInFlight.
-  Variable exec_iv : nat -> Z * Z.   (* execution i of the function given to DoEx(key, .): [start, end) *)
-  Variable query_iv : nat -> Z * Z.  (* the database query made by execution i *)
-  Definition within (a b : Z * Z) : Prop := fst b <= fst a /\ snd a <= snd b.
-  Definition disjoint (a b : Z * Z) : Prop := snd a <= fst b \/ snd b <= fst a.
-  Hypothesis single_flight : forall i j, i <> j -> disjoint (exec_iv i) (exec_iv j).  (* C18 *)
-  Hypothesis query_inside : forall i, within (query_iv i) (exec_iv i).               (* node.go:190-221 *)
-
-  Theorem c06_one_query_in_flight :
-    (forall i j, i <> j -> disjoint (query_iv i) (query_iv j)) /\
-    (forall c f e n id, (dbq (fst (fst (take_pk c f e n id))) <= S (dbq e))%nat).
-  Proof.
-    split; [|exact take_pk_one_query].
-    intros i j H. destruct (single_flight i j H) as [D|D];
-      destruct (query_inside i) as [A B]; destruct (query_inside j) as [A' B']; unfold disjoint in *; lia.
-  Qed.
-End OneQueryInFlight.
+(* Stampede clause: concurrent reads of one uncached key cause at most one database query at a time.
+   (1) singleflight.go itself (property C18's transcription SF.step; C18.ProofsSF.sf_one_flight_per_key, which
+       is what C18.Props.c18_singleflight_one_flight states;
+       all schedules, any number of threads): two threads that are inside the function handed to
+       Do/DoEx for the same key are the same thread -- and node.doTake queries the database only inside
+       that function (Link.link_take_calls);
+   (2) the concurrent cache-aside LTS ModelConc.CA, which uses DoEx through that contract: over every
+       schedule of any number of readers and writers, with gates holding user code and Redis commands
+       anywhere and contexts cancelled anywhere, two threads whose database query is in flight for the
+       same key are the same thread;
+   (3) one execution of that function asks the database at most once. *)
+Theorem c06_one_query_in_flight :
+  (forall scripts sched t u c d,
+     let s := C18.Conc.run C18.Model.SF.step sched (C18.Model.SF.init scripts) in
+     C18.Model.SF.t_pc (C18.Model.SF.ts s t) = C18.Model.SF.FnE c ->
+     C18.Model.SF.t_pc (C18.Model.SF.ts s u) = C18.Model.SF.FnE d ->
+     C18.Model.SF.t_key (C18.Model.SF.ts s t) = C18.Model.SF.t_key (C18.Model.SF.ts s u) -> t = u) /\
+  (forall wf scripts sched t u,
+     let s := C18.Conc.run CA.step sched (CA.init wf scripts) in
+     CA.querying (pc_of s t) = true -> CA.querying (pc_of s u) = true -> key_of s t = key_of s u -> t = u) /\
+  (forall c f e n id, (dbq (fst (fst (take_pk c f e n id))) <= S (dbq e))%nat).
+Proof.
+  split; [|split; [exact one_query_in_flight | exact take_pk_one_query]].
+  intros scripts sched t u c d s Ht Hu Hk. subst s.
+  apply (C18.ProofsSF.sf_one_flight_per_key scripts sched t u c d); [rewrite Ht | rewrite Hu | exact Hk]; reflexivity.
+Qed.
 Print Assumptions c06_one_query_in_flight.
+
+(* "never a value older than the last completed write", under concurrency.  ExecCtx is two steps (database
+   write; delete the keys), doTake three (GET; query; SETEX).  Over EVERY interleaving of any number of
+   such readers and writers: whenever no writer sits between its write and its delete, and no reader has
+   stored a value that it had read before a later write (ghost flag raced, raised only by such a store:
+   c06_raced_only_by_straddle), every cache entry is the database's current row (or its placeholder), so
+   the reads that follow return it.  In particular a completed Exec leaves no stale entry unless a read
+   that had queried BEFORE the write stores AFTER the delete. *)
+Theorem c06_coherent_concurrent : forall scripts sched k,
+  let s := C18.Conc.run CA.step sched (CA.init true scripts) in
+  CA.raced s = false -> (forall u, CA.wpending (pc_of s u) = true -> key_of s u <> k) ->
+  CA.cache s k = None \/ CA.cache s k = Some (CA.db s k).
+Proof. exact coherent_concurrent. Qed.
+Print Assumptions c06_coherent_concurrent.
+
+Theorem c06_read_after_quiescence : forall s t f,
+  pc_of s t = CA.RGet f -> CA.t_cancel (CA.ts s t) = false ->
+  (CA.cache s (key_of s t) = None \/ CA.cache s (key_of s t) = Some (CA.db s (key_of s t))) ->
+  exists s', CA.step (C18.Conc.Thr t) s = Some s' /\
+    (pc_of s' t = CA.REnd f (Some (CA.db s (key_of s t))) \/ pc_of s' t = CA.RQ0 f).
+Proof. exact read_after_quiescence. Qed.
+Print Assumptions c06_read_after_quiescence.
+
+Theorem c06_raced_only_by_straddle : forall l s s', CA.step l s = Some s' -> CA.raced s = false -> CA.raced s' = true ->
+  exists t f v, l = C18.Conc.Thr t /\ pc_of s t = CA.RSet f v true.
+Proof. exact raced_only_by_straddle. Qed.
+Print Assumptions c06_raced_only_by_straddle.
+
+(* The limit of "sequential histories" in the property's quantifier: the classic cache-aside race of the
+   UNMODIFIED code.  Reader queries (row 3); writer writes 5 and deletes; reader stores 3: everybody has
+   finished and the entry is stale until it expires.  Replayed on the Go code by the concurrent driver
+   (input_distribution label conc:stale-entry-after-race). *)
+Theorem c06_concurrent_race_witness :
+  let scripts := fun t : nat => match t with 0%nat => [writer 0 3 0 0 0] | 1%nat => [reader 0 0 7 0] | 2%nat => [writer 0 5 0 0 0] | _ => [] end in
+  let sched := [C18.Conc.Thr 0; C18.Conc.Thr 0; C18.Conc.Thr 0; C18.Conc.Thr 0; C18.Conc.Thr 1; C18.Conc.Thr 1; C18.Conc.Thr 1;
+                C18.Conc.Thr 1; C18.Conc.Thr 2; C18.Conc.Thr 2; C18.Conc.Thr 2; C18.Conc.Thr 2; C18.Conc.Open 7;
+                C18.Conc.Thr 1; C18.Conc.Thr 1; C18.Conc.Thr 1] in
+  let s := C18.Conc.run CA.step sched (CA.init true scripts) in
+  (forall t, pc_of s t = CA.Idle) /\ CA.cache s 0 = Some 3%nat /\ CA.db s 0 = 5%nat /\ CA.raced s = true.
+Proof. exact race_witness. Qed.
+Print Assumptions c06_concurrent_race_witness.
+
+(* The order inside ExecCtx matters: with delete-then-write a reader that runs ENTIRELY between the two
+   steps -- it stores exactly what it has just read, raced stays false -- leaves a stale entry behind a
+   completed Exec.  (The code's order is write-then-delete: Link.link_exec_calls.) *)
+Theorem c06_delete_before_write_refuted :
+  let scripts := fun t : nat => match t with 0%nat => [writer 0 3 0 0 0] | 1%nat => [writer 0 5 7 0 0] | 2%nat => [reader 0 0 0 0] | _ => [] end in
+  let sched := [C18.Conc.Thr 0; C18.Conc.Thr 0; C18.Conc.Thr 0; C18.Conc.Thr 0; C18.Conc.Thr 1; C18.Conc.Thr 1;
+                C18.Conc.Thr 2; C18.Conc.Thr 2; C18.Conc.Thr 2; C18.Conc.Thr 2; C18.Conc.Thr 2; C18.Conc.Thr 2; C18.Conc.Thr 2; C18.Conc.Thr 2;
+                C18.Conc.Open 7; C18.Conc.Thr 1; C18.Conc.Thr 1] in
+  let s := C18.Conc.run CA.step sched (CA.init false scripts) in
+  (forall t, pc_of s t = CA.Idle) /\ CA.cache s 0 = Some 3%nat /\ CA.db s 0 = 5%nat /\ CA.raced s = false.
+Proof. exact delete_first_witness. Qed.
+Print Assumptions c06_delete_before_write_refuted.
 
 (* ---------- non-vacuity ---------- *)
 Definition demo_cfg : cfg := mkC (100 * sec) (10 * sec) (5 * sec).
@@ -179,7 +240,11 @@ Example c06_retry_happens :
   log n = [EvArm 0 0 [PK 1]; EvTry 0 1 false; EvTry 0 6 true] /\ pending n = [] /\ live n (PK 1) = None.
 Proof. vm_compute. repeat split; reflexivity. Qed.
 
-Example c06_single_flight_satisfiable :
-  let ex := fun i : nat => (Z.of_nat i * 10, Z.of_nat i * 10 + 5) in
-  (forall i j, i <> j -> disjoint (ex i) (ex j)) /\ (forall i, within (ex i) (ex i)).
-Proof. unfold disjoint, within; simpl. split; intros; lia. Qed.
+(* concurrency is not vacuous: three readers of one uncached key, the first held inside its query: the other
+   two wait for it, the database is asked once, all three get the row *)
+Example c06_stampede_shared :
+  let scripts := fun t : nat => match t with 0%nat => [writer 0 3 0 0 0] | 1%nat => [reader 0 5 0 0] | 2%nat | 3%nat => [reader 0 0 0 0] | _ => [] end in
+  let s := C18.Conc.replay CA.step CA.busy 24 [0; 1; 2; 3]%nat
+             [C18.Conc.Thr 0; C18.Conc.Thr 1; C18.Conc.Thr 2; C18.Conc.Thr 3; C18.Conc.Open 5] (CA.init true scripts) in
+  CA.dbq s = 1%nat /\ map (fun t => CA.t_res (CA.ts s t)) [1; 2; 3]%nat = [[(true, Some 3%nat)]; [(false, Some 3%nat)]; [(false, Some 3%nat)]].
+Proof. vm_compute. split; reflexivity. Qed.
